@@ -219,8 +219,10 @@ def run_shard(spec, tier, seed, budget_s):
                 rich = gen.Texts(rng, 'rich')
 
                 def rich_note():
-                    t = rich.note('rn', 0.7).replace("'''", "''")
-                    return t + rng.choice(['', "'", ' "', '\\', " it's", "\n'", "\nend'"])
+                    t = rich.note('rn', 0.7) + rng.choice(['', "'", ' "', '\\', " it's", "\n'", "\nend'"])
+                    while "'''" in t:         # three quotes in a row: KF-C13-triple-quote, not this suite's business
+                        t = t.replace("'''", "''")
+                    return t
                 for t in doc.tables:
                     if t.note is not None:
                         t.note = rich_note()
